@@ -6,6 +6,7 @@ package simrt
 
 import (
 	"fmt"
+	"syscall"
 	"strings"
 	"hash/fnv"
 	"math/rand"
@@ -83,6 +84,7 @@ type Config struct {
 	// FIFOSubstr: among ready threads whose name contains this substring only the one created first may run
 	// (a restriction of the schedule space used as a known-finding mask, DESIGN 5.3).
 	FIFOSubstr string
+	HB         bool
 }
 
 // Sim is the state of one run.
@@ -117,6 +119,12 @@ type Sim struct {
 	LeakedLocks  []string
 	maps         map[uintptr]*mapState
 	MapRaces     []MapRace
+	MaxStepWall  time.Duration // longest real time a single scheduling step took
+	MaxStepName  string
+	stepStartReal time.Duration
+	stepThread   *Thread
+	HB           bool // happens-before tracking for the map monitor (costly; enabled per scenario)
+	chanHB       SyncObj
 }
 
 var (
@@ -135,6 +143,13 @@ func setCur(s *Sim) {
 	curMu.Lock()
 	cur = s
 	curMu.Unlock()
+}
+
+// realNow reads the real clock (time.Now is the fake clock inside a synctest bubble).
+func realNow() time.Duration {
+	var tv syscall.Timeval
+	_ = syscall.Gettimeofday(&tv)
+	return time.Duration(tv.Sec)*time.Second + time.Duration(tv.Usec)*time.Microsecond
 }
 
 func goid() uint64 {
@@ -169,6 +184,7 @@ func New(cfg Config) *Sim {
 		start:       time.Now(),
 		hash:        14695981039346656037,
 		YieldCounts: map[string]uint64{},
+		HB:          cfg.HB,
 	}
 	if cfg.Policy == PolPCT {
 		s.pctChange = map[uint64]bool{}
@@ -535,6 +551,13 @@ func (t *Thread) State() string {
 func (s *Sim) Run() {
 	for {
 		synctest.Wait()
+		if s.stepThread != nil {
+			if d := realNow() - s.stepStartReal; d > s.MaxStepWall {
+				s.MaxStepWall = d
+				s.MaxStepName = s.stepThread.Name + " after " + s.stepThread.LastKind
+			}
+			s.stepThread = nil
+		}
 		s.mu.Lock()
 		if s.running != nil {
 			// the token holder blocked natively (channel op) without yielding
@@ -695,6 +718,8 @@ func (s *Sim) Run() {
 			c.t.st = stRunning
 			s.running = c.t
 			s.last = c.t
+			s.stepThread = c.t
+			s.stepStartReal = realNow()
 			s.mu.Unlock()
 			c.t.grant <- struct{}{}
 		} else {
